@@ -27,7 +27,7 @@ def run(tier):
     rng = random.Random(vlib.seed())
     tables = rel.gen_tables(rep, "C03-gent")
     d1 = rel.gen_select(rep, "C03-gen1", 1)
-    nsim, k = (60, 80) if tier == "quick" else (250, 30)
+    nsim, k = (60, 80) if tier == "quick" else (150, 30)
     deep = rel.gen_select(rep, "C03-gensim", 3, simulate=nsim, seed=vlib.seed() + 31, sample_k=k)
     deep = [p for p in deep if p["d"] >= 2]
     qs = d1 + deep
